@@ -285,6 +285,11 @@ def day_set(tier):
         s.add(datetime.date(y, 3, 1) - ONE)
         s.add(datetime.date(y, 12, 31))
         s.add(datetime.date(y, 1, 2))
+    # every calendar day of the period the package documents as supported (2015 onwards)
+    d = datetime.date(2015, 1, 1)
+    while d <= last:
+        s.add(d)
+        d += ONE
     return sorted(d for d in s if START <= d <= last)
 
 
@@ -327,14 +332,14 @@ def run(tier):
     check_overlap_rejection(rep)
     check_date_forms(rep)
     rep.bound = {"first_day": START.isoformat(), "last_day": _last_day().isoformat(), "days_checked": len(days),
-                 "every_calendar_day": tier == "thorough", "groups": len(RP.groups())}
+                 "every_calendar_day": tier == "thorough", "every_calendar_day_from": START.isoformat() if tier == "thorough" else "2015-01-01", "groups": len(RP.groups())}
     rep.assumptions = [
         "reference resolver mc/ref/params.py (own reading of the parameter-file conventions; Fractions for schedules)",
         "registry reference = AST scan of @policy_info decorators in the rule modules",
         "days on which the environment may change: YAML keys, @policy_info bounds (+1 day after an end), key + 1 year for 'vorjahr' parameters, every 1 January",
     ]
     return rep.finish(
-        "one state per calendar day (quick: every change date +-1 day, every 1st of month, 28/29 Feb, 31 Dec, 2 Jan; thorough: every "
+        "one state per calendar day (quick: every day from 2015-01-01 to the last key + 1 year, and before 2015 every change date +-1 day, every 1st of month, 28/29 Feb, 31 Dec, 2 Jan; thorough: every "
         "day 1980-01-01..last key + 1 year); real set_up_policy_environment(day) compared leaf by leaf with the reference resolver and "
         "the AST-scanned registry; stutter invariant between consecutive days; all 225 interval pairs for overlap rejection; "
         "distinct = distinct environment digests"
